@@ -11,113 +11,200 @@ Open Scope N_scope.
 (* ===================================================================================== *)
 (** * 1. Generic facts about [run] *)
 
-Lemma run_app : forall l1 l2 q,
-  run q (l1 ++ l2) = match run q l1 with
-                     | Continue q' => run q' l2
-                     | Return f => Return f
-                     end.
-Proof.
-  induction l1 as [|c l1 IH]; intros l2 q; cbn [run app]; [reflexivity|].
-  destruct (step q c) as [q'|f]; [apply IH|reflexivity].
-Qed.
-
-Lemma run_app_continue : forall l1 l2 q q',
-  run q l1 = Continue q' -> run q (l1 ++ l2) = run q' l2.
-Proof. intros l1 l2 q q' H. rewrite run_app, H. reflexivity. Qed.
-
-Lemma run_app_return : forall l1 l2 q f,
-  run q l1 = Return f -> run q (l1 ++ l2) = Return f.
-Proof. intros l1 l2 q f H. rewrite run_app, H. reflexivity. Qed.
-
-(* A proof device: the same step with the two pure conjuncts of the default arm commuted, so
-   that [vm_compute] on a concrete character does not get stuck on an abstract [prev]. *)
-Definition step' (q : st) (s : N) : step_result :=
-  let '(mkSt e iq b p h a) := q in
-  if e then Continue (mkSt false iq b s h a)
-  else if (s =? 34) && iq then Continue (mkSt e false b s h a)
-  else if iq then Continue (mkSt e iq b s h a)
-  else if is_esc s then Continue (mkSt true iq b s h a)
-  else if s =? 34 then Continue (mkSt e true b s h a)
-  else if s =? 59 then Return Other
-  else if s =? 91 then Continue (mkSt e iq (sat_inc b) s h a)
-  else if (s =? 93) && (b =? 1) && h then Return TimeDelta
-  else if s =? 93 then Continue (mkSt e iq (sat_dec b) s h a)
-  else if is_a s && negb a && (b =? 0) then Continue (mkSt e iq b s h true)
-  else if is_pm_slash s && a && (b =? 0) then Return DateTime
-  else if is_date_letter s && negb a && (b =? 0) then Return DateTime
-  else
-    let h' := if h && eq_ignore_ascii_case s p then h else is_mhs s && (p =? 91) in
-    Continue (mkSt e iq b s h' false).
-
-
-Fixpoint run' (q : st) (l : list N) : step_result :=
+(* [run] over a prefix of the format: the scanner looks ahead (only to recognise the keyword
+   General), so a step inside the prefix sees the rest of the prefix followed by [tail] *)
+Fixpoint run_with (tail : list N) (q : st) (l : list N) : step_result :=
   match l with
   | [] => Continue q
-  | c :: t => match step' q c with
-              | Continue q' => run' q' t
+  | c :: t => match step q c (t ++ tail) with
+              | Continue q' => run_with tail q' t
               | Return f => Return f
               end
   end.
 
-Lemma step_eq : forall q s, step q s = step' q s.
+Lemma run_app : forall l1 l2 q,
+  run q (l1 ++ l2) = match run_with l2 q l1 with
+                     | Continue q' => run q' l2
+                     | Return f => Return f
+                     end.
 Proof.
-  intros [e iq b p h a] s. unfold step, step'.
+  induction l1 as [|c l1 IH]; intros l2 q; cbn [run run_with app]; [reflexivity|].
+  destruct (step q c (l1 ++ l2)) as [q'|f]; [apply IH|reflexivity].
+Qed.
+
+Lemma run_with_app : forall l1 l2 tail q,
+  run_with tail q (l1 ++ l2) = match run_with (l2 ++ tail) q l1 with
+                               | Continue q' => run_with tail q' l2
+                               | Return f => Return f
+                               end.
+Proof.
+  induction l1 as [|c l1 IH]; intros l2 tail q; cbn [run_with app]; [reflexivity|].
+  rewrite <- app_assoc.
+  destruct (step q c (l1 ++ l2 ++ tail)) as [q'|f]; [apply IH|reflexivity].
+Qed.
+
+Lemma run_with_nil : forall l q, run_with [] q l = run q l.
+Proof.
+  induction l as [|c l IH]; intros q; cbn [run run_with]; [reflexivity|].
+  rewrite app_nil_r. destruct (step q c l); [apply IH|reflexivity].
+Qed.
+
+Lemma run_with_app_continue : forall l1 l2 tail q q',
+  run_with (l2 ++ tail) q l1 = Continue q' -> run_with tail q (l1 ++ l2) = run_with tail q' l2.
+Proof. intros l1 l2 tail q q' H. rewrite run_with_app, H. reflexivity. Qed.
+
+Lemma run_with_app_return : forall l1 l2 tail q f,
+  run_with (l2 ++ tail) q l1 = Return f -> run_with tail q (l1 ++ l2) = Return f.
+Proof. intros l1 l2 tail q f H. rewrite run_with_app, H. reflexivity. Qed.
+
+(* A proof device: the same step with the two pure conjuncts of the default arm commuted, so
+   that [vm_compute] on a concrete character does not get stuck on an abstract [prev]. *)
+Definition step' (q : st) (s : N) (rest : list N) : step_result :=
+  let '(mkSt e iq b p h a ar dg kw) := q in
+  if 0 <? kw then Continue (mkSt e iq b p h a ar dg (kw - 1))
+  else
+  let exponent := dg in
+  let plain_a := negb e && negb iq && (b =? 0) && is_a s in
+  if plain_a && (ar + 1 =? 3) then Return DateTime
+  else
+  let ar := if plain_a then ar + 1 else 0 in
+  if e then Continue (mkSt false iq b s h a ar false 0)
+  else if (s =? 34) && iq then Continue (mkSt e false b s h a ar false 0)
+  else if iq then Continue (mkSt e iq b s h a ar false 0)
+  else if is_esc s then Continue (mkSt true iq b s h a ar false 0)
+  else if s =? 34 then Continue (mkSt e true b s h a ar false 0)
+  else if s =? 59 then Return Other
+  else if s =? 91 then Continue (mkSt e iq (sat_inc b) s h a ar false 0)
+  else if (s =? 93) && (b =? 1) && h then Return TimeDelta
+  else if s =? 93 then Continue (mkSt e iq (sat_dec b) s h a ar false 0)
+  else if is_a s && negb a && (b =? 0) then Continue (mkSt e iq b s h true ar false 0)
+  else if is_pm_slash s && a && (b =? 0) then Return DateTime
+  else if is_g s && (b =? 0) && is_general (s :: rest) then Continue (mkSt e iq b s h a ar false 6)
+  else if is_e s && negb a && (b =? 0) && negb exponent then Return DateTime
+  else if is_gb s && negb a && (b =? 0) then Return DateTime
+  else if is_date_letter s && negb a && (b =? 0) then Return DateTime
+  else
+    let h' := if h && eq_ignore_ascii_case s p then h else is_mhs s && (p =? 91) in
+    Continue (mkSt e iq b s h' false ar (is_placeholder s) 0).
+
+Fixpoint run_with' (tail : list N) (q : st) (l : list N) : step_result :=
+  match l with
+  | [] => Continue q
+  | c :: t => match step' q c (t ++ tail) with
+              | Continue q' => run_with' tail q' t
+              | Return f => Return f
+              end
+  end.
+
+Lemma step_eq : forall q s rest, step q s rest = step' q s rest.
+Proof.
+  intros [e iq b p h a ar dg kw] s rest. unfold step, step'.
   rewrite (andb_comm (p =? 91) (is_mhs s)). reflexivity.
 Qed.
 
-Lemma run_eq : forall l q, run q l = run' q l.
+Lemma run_with_eq : forall l tail q, run_with tail q l = run_with' tail q l.
 Proof.
-  induction l as [|c l IH]; intros q; cbn [run run']; [reflexivity|].
-  rewrite step_eq. destruct (step' q c); [apply IH|reflexivity].
+  induction l as [|c l IH]; intros tail q; cbn [run_with run_with']; [reflexivity|].
+  rewrite step_eq. destruct (step' q c (l ++ tail)); [apply IH|reflexivity].
 Qed.
 
+(* boundary state: outside quotes, escapes and brackets, hms and ap clear, no `a` counted, no
+   keyword being skipped; [d] = the last character was a digit placeholder *)
+Definition B (p : N) (d : bool) : st := mkSt false false 0 p false false 0 d 0.
 
-(* boundary state: outside quotes, escapes and brackets, hms and ap clear *)
-Definition B (p : N) : st := mkSt false false 0 p false false.
+(* ---- the counters cannot overflow: every state reached from [init] has a_run <= 2 (so that
+   `a_run += 1` stays below 256) and keyword <= 6 ---- *)
+Definition bounded (q : st) : Prop := a_run q <= 2 /\ keyword q <= 6.
+
+Lemma step_bounded : forall q s rest q', bounded q -> step q s rest = Continue q' -> bounded q'.
+Proof.
+  intros [e iq b p h a ar dg kw] s rest q' [Ha Hk]. cbn [a_run keyword] in *. unfold step.
+  destruct (0 <? kw) eqn:Ekw.
+  { intros H. inversion H; subst. split; cbn [a_run keyword]; lia. }
+  set (pa := negb e && negb iq && (b =? 0) && is_a s).
+  destruct pa eqn:Epa; cbn [andb].
+  - destruct (ar + 1 =? 3) eqn:E3; [discriminate|].
+    assert (Har : ar + 1 <= 2) by lia.
+    repeat match goal with
+           | |- context [if ?c then _ else _] => destruct c
+           end; intros H; inversion H; subst; split; cbn [a_run keyword]; lia.
+  - repeat match goal with
+           | |- context [if ?c then _ else _] => destruct c
+           end; intros H; inversion H; subst; split; cbn [a_run keyword]; lia.
+Qed.
+
+Lemma run_with_bounded : forall l tail q q',
+  bounded q -> run_with tail q l = Continue q' -> bounded q'.
+Proof.
+  induction l as [|c l IH]; intros tail q q' Hb H; cbn [run_with] in H.
+  - inversion H; subst. exact Hb.
+  - destruct (step q c (l ++ tail)) as [q1|f] eqn:E; [|discriminate].
+    apply (IH tail q1 q'); [eapply step_bounded; eassumption|exact H].
+Qed.
+
+Theorem a_run_bounded : forall l1 l2 q, run_with l2 init l1 = Continue q -> a_run q <= 2 /\ keyword q <= 6.
+Proof. intros l1 l2 q H. apply (run_with_bounded l1 l2 init q); [split; cbn; lia|exact H]. Qed.
 
 (* ===================================================================================== *)
 (** * 2. Character-level lemmas *)
 
 (* --- escapes: \c, _c and the fill prefix *c swallow any character --- *)
-Lemma step_escaped : forall iq b p h a c,
-  step (mkSt true iq b p h a) c = Continue (mkSt false iq b c h a).
+Lemma step_escaped : forall iq b p h a ar dg c rest,
+  step (mkSt true iq b p h a ar dg 0) c rest = Continue (mkSt false iq b c h a 0 false 0).
 Proof. reflexivity. Qed.
 
-Lemma step_B_esc : forall p e, is_esc e = true ->
-  step (B p) e = Continue (mkSt true false 0 e false false).
-Proof. intros p e He. unfold B, step. rewrite andb_false_r, He. reflexivity. Qed.
+Lemma esc_not_a : forall e, is_esc e = true -> is_a e = false.
+Proof. intros e H. unfold is_esc, is_a, mem in *. cbn [existsb] in *. lia. Qed.
 
-Lemma run_esc_pair : forall p e c, is_esc e = true ->
-  run (B p) [e; c] = Continue (B c).
+(* N arithmetic is opaque to cbn: the few closed comparisons a boundary state produces *)
+Ltac nred := repeat (progress (change (0 <? 0) with false; change (0 =? 0) with true;
+                               change (0 + 1 =? 3) with false; change (1 =? 0) with false;
+                               cbn [negb andb orb])).
+
+Lemma step_B_esc : forall p d e rest, is_esc e = true ->
+  step (B p d) e rest = Continue (mkSt true false 0 e false false 0 false 0).
 Proof.
-  intros p e c He. cbn [run]. rewrite (step_B_esc p e He), step_escaped. reflexivity.
+  intros p d e rest He. unfold B, step. rewrite (esc_not_a e He), He. nred.
+  rewrite andb_false_r. reflexivity.
+Qed.
+
+Lemma run_esc_pair : forall tail p d e c, is_esc e = true ->
+  run_with tail (B p d) [e; c] = Continue (B c false).
+Proof.
+  intros tail p d e c He. cbn [run_with]. rewrite (step_B_esc p d e _ He), step_escaped. reflexivity.
 Qed.
 
 (* --- quoted text: nothing is special between the quotes --- *)
-Definition Q (p : N) : st := mkSt false true 0 p false false.
+Definition Q (p : N) : st := mkSt false true 0 p false false 0 false 0.
 
-Lemma run_quoted_body : forall s p, mem 34 s = false ->
-  exists p', run (Q p) s = Continue (Q p').
+Lemma step_Q : forall p c rest, (c =? 34) = false -> step (Q p) c rest = Continue (Q c).
+Proof. intros p c rest H. unfold Q, step. rewrite H. reflexivity. Qed.
+
+Lemma run_quoted_body : forall s tail p, mem 34 s = false ->
+  exists p', run_with tail (Q p) s = Continue (Q p').
 Proof.
-  induction s as [|c s IH]; intros p Hs.
+  induction s as [|c s IH]; intros tail p Hs.
   - exists p. reflexivity.
   - unfold mem in Hs. cbn [existsb] in Hs. apply orb_false_iff in Hs. destruct Hs as [Hc Hs].
     rewrite N.eqb_sym in Hc.
-    cbn [run]. unfold Q at 1, step. rewrite Hc. cbn [andb]. apply (IH c Hs).
+    cbn [run_with]. rewrite (step_Q p c _ Hc). apply (IH tail c Hs).
 Qed.
 
-Lemma run_quoted : forall p s, mem 34 s = false ->
-  run (B p) (34 :: s ++ [34]) = Continue (B 34).
+Lemma step_B_quote : forall p d rest, step (B p d) 34 rest = Continue (Q 34).
+Proof. reflexivity. Qed.
+Lemma step_Q_quote : forall p rest, step (Q p) 34 rest = Continue (B 34 false).
+Proof. reflexivity. Qed.
+
+Lemma run_quoted : forall tail p d s, mem 34 s = false ->
+  run_with tail (B p d) (34 :: s ++ [34]) = Continue (B 34 false).
 Proof.
-  intros p s Hs.
-  change (34 :: s ++ [34]) with ([34] ++ s ++ [34]).
-  rewrite run_app_continue with (q' := Q 34) by reflexivity.
-  destruct (run_quoted_body s 34 Hs) as [p' Hr].
-  rewrite (run_app_continue s [34] _ _ Hr). reflexivity.
+  intros tail p d s Hs. cbn [run_with]. rewrite step_B_quote.
+  destruct (run_quoted_body s ([34] ++ tail) 34 Hs) as [p' Hr].
+  rewrite (run_with_app_continue s [34] tail _ _ Hr). cbn [run_with]. rewrite step_Q_quote. reflexivity.
 Qed.
 
 (* --- brackets --- *)
-Definition K (h : bool) (p : N) : st := mkSt false false 1 p h false.
+Definition K (h : bool) (p : N) (d : bool) : st := mkSt false false 1 p h false 0 d 0.
 
 Definition hms_next (p : N) (h : bool) (c : N) : bool :=
   if h && eq_ignore_ascii_case c p then h else (p =? 91) && is_mhs c.
@@ -130,10 +217,10 @@ Fixpoint hms_after (p : N) (h : bool) (l : list N) : bool :=
 
 Definition no_special (l : list N) : bool := forallb (fun c => negb (bracket_special c)) l.
 
-Lemma step_bracket_inner : forall h p c, bracket_special c = false ->
-  step (K h p) c = Continue (K (hms_next p h c) c).
+Lemma step_bracket_inner : forall h p d c rest, bracket_special c = false ->
+  step (K h p d) c rest = Continue (K (hms_next p h c) c (is_placeholder c)).
 Proof.
-  intros h p c Hc. unfold bracket_special, mem in Hc. cbn [existsb] in Hc.
+  intros h p d c rest Hc. unfold bracket_special, mem in Hc. cbn [existsb] in Hc.
   unfold K, step, is_esc, mem. cbn [existsb].
   assert (H91 : (c =? 91) = false) by lia.
   assert (H93 : (c =? 93) = false) by lia.
@@ -142,18 +229,18 @@ Proof.
   assert (H95 : (c =? 95) = false) by lia.
   assert (H42 : (c =? 42) = false) by lia.
   assert (H59 : (c =? 59) = false) by lia.
-  rewrite H91, H93, H34, H92, H95, H42, H59. cbn [orb andb].
+  rewrite H91, H93, H34, H92, H95, H42, H59. cbn [orb andb negb].
   replace (1 =? 0) with false by reflexivity.
-  rewrite !andb_false_r. reflexivity.
+  rewrite !andb_false_r. cbn [andb]. reflexivity.
 Qed.
 
-Lemma run_bracket_inner : forall l h p, no_special l = true ->
-  exists p', run (K h p) l = Continue (K (hms_after p h l) p').
+Lemma run_bracket_inner : forall l tail h p d, no_special l = true ->
+  exists p' d', run_with tail (K h p d) l = Continue (K (hms_after p h l) p' d').
 Proof.
-  intros l. induction l as [|c l IH]; intros h p Hl; [exists p; reflexivity|].
+  intros l. induction l as [|c l IH]; intros tail h p d Hl; [exists p, d; reflexivity|].
   unfold no_special in Hl. cbn [forallb] in Hl. apply andb_true_iff in Hl. destruct Hl as [Hc Hl].
   apply negb_true_iff in Hc.
-  cbn [run hms_after]. rewrite (step_bracket_inner h p c Hc). apply (IH _ _ Hl).
+  cbn [run_with hms_after]. rewrite (step_bracket_inner h p d c _ Hc). apply (IH _ _ _ _ Hl).
 Qed.
 
 Definition elapsed_form (l : list N) : bool :=
@@ -216,45 +303,55 @@ Proof.
   apply hms_after_chain; [exact Hc1|exact Hr|reflexivity].
 Qed.
 
-Lemma run_bracket_token : forall p c1 rest, no_special (c1 :: rest) = true ->
-  run (B p) (91 :: (c1 :: rest) ++ [93]) =
-    if elapsed_form (c1 :: rest) then Return TimeDelta else Continue (B 93).
+Lemma step_B_open : forall p d rest, step (B p d) 91 rest = Continue (K false 91 false).
+Proof. reflexivity. Qed.
+Lemma step_K_close : forall h p d rest,
+  step (K h p d) 93 rest = if h then Return TimeDelta else Continue (B 93 false).
+Proof. intros [] p d rest; reflexivity. Qed.
+
+Lemma run_bracket_token : forall tail p d c1 rest, no_special (c1 :: rest) = true ->
+  run_with tail (B p d) (91 :: (c1 :: rest) ++ [93]) =
+    if elapsed_form (c1 :: rest) then Return TimeDelta else Continue (B 93 false).
 Proof.
-  intros p c1 rest H.
-  change (91 :: (c1 :: rest) ++ [93]) with ([91] ++ (c1 :: rest) ++ [93]).
-  rewrite run_app_continue with (q' := K false 91) by reflexivity.
-  destruct (run_bracket_inner (c1 :: rest) false 91 H) as [p' Hr].
-  rewrite (run_app_continue _ [93] _ _ Hr).
+  intros tail p d c1 rest H. cbn [run_with]. rewrite step_B_open.
+  change ((c1 :: rest ++ [93]) ) with ((c1 :: rest) ++ [93]).
+  destruct (run_bracket_inner (c1 :: rest) ([93] ++ tail) false 91 false H) as (p' & d' & Hr).
+  rewrite (run_with_app_continue _ [93] tail _ _ Hr). cbn [run_with]. rewrite step_K_close.
   rewrite hms_after_bracket by assumption.
   destruct (elapsed_form (c1 :: rest)); reflexivity.
 Qed.
 
-(* --- characters the scanner ignores at a boundary --- *)
-Lemma step_inert_char : forall p c, significant c = false ->
-  step (B p) c = Continue (B c).
+(* --- characters the scanner ignores at a boundary (they only set or clear [digit]) --- *)
+Lemma step_inert_char : forall p d c rest, significant c = false ->
+  step (B p d) c rest = Continue (B c (is_placeholder c)).
 Proof.
-  intros p c H. unfold significant, mem in H. cbn [existsb] in H.
-  unfold B, step, is_esc, is_a, is_pm_slash, is_date_letter, is_mhs, mem. cbn [existsb].
+  intros p d c rest H. unfold significant, mem in H. cbn [existsb] in H.
+  unfold B, step, is_esc, is_a, is_pm_slash, is_date_letter, is_mhs, is_g, is_e, is_gb, mem.
+  cbn [existsb].
   repeat match goal with
          | |- context [c =? ?k] => replace (c =? k) with false by lia
          end.
-  cbn [orb andb]. rewrite andb_false_r. reflexivity.
+  nred. rewrite andb_false_r. reflexivity.
 Qed.
 
 Definition inert_list (l : list N) : bool := forallb (fun c => negb (significant c)) l.
 
-Lemma run_inert_list : forall l p, inert_list l = true ->
-  exists p', run (B p) l = Continue (B p').
+Lemma run_inert_list : forall l tail p d, inert_list l = true ->
+  exists p' d', run_with tail (B p d) l = Continue (B p' d').
 Proof.
-  induction l as [|c l IH]; intros p H; [exists p; reflexivity|].
+  induction l as [|c l IH]; intros tail p d H; [exists p, d; reflexivity|].
   unfold inert_list in H. cbn [forallb] in H. apply andb_true_iff in H. destruct H as [Hc Hl].
-  apply negb_true_iff in Hc. cbn [run]. rewrite (step_inert_char p c Hc). apply (IH c Hl).
+  apply negb_true_iff in Hc. cbn [run_with]. rewrite (step_inert_char p d c _ Hc). apply (IH _ c _ Hl).
 Qed.
 
-Lemma inert_list_repeat : forall c n, significant c = false -> inert_list (repeat c n) = true.
+(* zeros: inert, and they leave [digit] set *)
+Lemma run_zeros : forall n tail p d,
+  run_with tail (B p d) (repeat 48 (S n)) = Continue (B 48 true).
 Proof.
-  intros c n H. induction n as [|n IH]; [reflexivity|].
-  unfold inert_list in *. cbn [repeat forallb]. rewrite H, IH. reflexivity.
+  induction n as [|n IH]; intros tail p d.
+  - cbn [repeat run_with]. rewrite step_inert_char by reflexivity. reflexivity.
+  - change (repeat 48 (S (S n))) with (48 :: repeat 48 (S n)). cbn [run_with].
+    rewrite step_inert_char by reflexivity. apply IH.
 Qed.
 
 (* --- case flags --- *)
@@ -388,12 +485,12 @@ Proof.
   - apply elapsed_form_first. reflexivity.
 Qed.
 
-Lemma run_prefix_bracket : forall t p c1 rest,
+Lemma run_prefix_bracket : forall t tail p d c1 rest,
   bracket_content t = c1 :: rest -> no_special (c1 :: rest) = true ->
   elapsed_form (c1 :: rest) = false ->
-  run (B p) (91 :: bracket_content t ++ [93]) = Continue (B 93).
+  run_with tail (B p d) (91 :: bracket_content t ++ [93]) = Continue (B 93 false).
 Proof.
-  intros t p c1 rest E Hns Hel. rewrite E, run_bracket_token by exact Hns. rewrite Hel. reflexivity.
+  intros t tail p d c1 rest E Hns Hel. rewrite E, run_bracket_token by exact Hns. rewrite Hel. reflexivity.
 Qed.
 
 (* elapsed tokens *)
@@ -422,60 +519,131 @@ Proof.
       unfold eq_ignore_ascii_case. rewrite lower_recase1, Hx. apply N.eqb_refl.
 Qed.
 
-Lemma run_elapsed : forall l n ups p,
-  run (B p) (render_tok (TElapsed l n ups)) = Return TimeDelta.
+Lemma run_elapsed : forall l n ups tail p d,
+  run_with tail (B p d) (render_tok (TElapsed l n ups)) = Return TimeDelta.
 Proof.
-  intros l n ups p. destruct (elapsed_content l n ups) as (c1 & rest & E & Hns & Hel).
+  intros l n ups tail p d. destruct (elapsed_content l n ups) as (c1 & rest & E & Hns & Hel).
   cbn [render_tok]. rewrite E, run_bracket_token by exact Hns. rewrite Hel. reflexivity.
 Qed.
 
-(* date tokens *)
-Lemma run_date : forall l n ups p tail,
-  run (B p) (render_tok (TDate l n ups) ++ tail) = Return DateTime.
+(* date tokens: the first letter decides *)
+Lemma run_with_first : forall tail q c w f,
+  (forall rest, step q c rest = Return f) -> run_with tail q (c :: w) = Return f.
+Proof. intros tail q c w f H. cbn [run_with]. rewrite H. reflexivity. Qed.
+
+Lemma run_date : forall l n ups tail p d,
+  run_with tail (B p d) (render_tok (TDate l n ups)) = Return DateTime.
 Proof.
-  intros l n ups p tail. cbn [render_tok repeat]. rewrite recase_cons. cbn [app run].
-  assert (E : step (B p) (recase1 (hd false ups) (dletter_char l)) = Return DateTime).
-  { rewrite step_eq. destruct l, (hd false ups); vm_compute; reflexivity. }
-  rewrite E. reflexivity.
+  intros l n ups tail p d. cbn [render_tok repeat]. rewrite recase_cons.
+  apply run_with_first. intros rest. rewrite step_eq.
+  destruct l, (hd false ups); vm_compute; reflexivity.
 Qed.
 
-Lemma run_ampm : forall ups p tail,
-  run (B p) (render_tok (TAmPm ups) ++ tail) = Return DateTime.
+Lemma run_buddhist : forall long ups tail p d,
+  run_with tail (B p d) (render_tok (TBuddhist long ups)) = Return DateTime.
 Proof.
-  intros ups p tail. cbn [render_tok]. unfold w_ampm. rewrite 2!recase_cons.
-  match goal with |- run _ ((?c1 :: ?c2 :: ?r) ++ tail) = _ =>
-    change ((c1 :: c2 :: r) ++ tail) with ([c1; c2] ++ (r ++ tail)) end.
-  apply run_app_return. rewrite run_eq.
+  intros long ups tail p d. cbn [render_tok].
+  assert (E : exists w, recase (repeat 98 (if long then 4 else 2)%nat) ups = recase1 (hd false ups) 98 :: w).
+  { destruct long; cbn [repeat]; rewrite recase_cons; eexists; reflexivity. }
+  destruct E as [w ->]. apply run_with_first. intros rest. rewrite step_eq.
+  destruct (hd false ups); vm_compute; reflexivity.
+Qed.
+
+(* the year of the era decides unless it stands where an exponent does: after a digit placeholder *)
+Lemma run_erayear : forall long ups tail p,
+  run_with tail (B p false) (render_tok (TEraYear long ups)) = Return DateTime.
+Proof.
+  intros long ups tail p. cbn [render_tok].
+  assert (E : exists w, recase (repeat 101 (if long then 2 else 1)%nat) ups = recase1 (hd false ups) 101 :: w).
+  { destruct long; cbn [repeat]; rewrite recase_cons; eexists; reflexivity. }
+  destruct E as [w ->]. apply run_with_first. intros rest. rewrite step_eq.
+  destruct (hd false ups); vm_compute; reflexivity.
+Qed.
+
+(* the era: g decides unless the keyword General starts here, i.e. unless "eneral" follows *)
+Definition hd_n (l : list N) : bool :=
+  match l with c :: _ => to_ascii_lowercase c =? 110 | [] => false end.
+Definition starts_en (l : list N) : bool :=
+  match l with c :: l' => (to_ascii_lowercase c =? 101) && hd_n l' | [] => false end.
+
+Lemma is_general_g : forall g X, starts_en X = false -> is_general (g :: X) = false.
+Proof.
+  intros g X H. unfold is_general, kw_general. cbn [starts_with_ci].
+  destruct X as [|c X]; [apply andb_false_r|]. cbn [starts_with_ci].
+  cbn [starts_en] in H. destruct (to_ascii_lowercase c =? 101); cbn [andb] in *; [|apply andb_false_r].
+  destruct X as [|c2 X]; [apply andb_false_r|]. cbn [starts_with_ci hd_n] in *. rewrite H.
+  cbn [andb]. apply andb_false_r.
+Qed.
+
+Lemma step_B_g : forall p d u rest, is_general (recase1 u 103 :: rest) = false ->
+  step (B p d) (recase1 u 103) rest = Return DateTime.
+Proof.
+  intros p d u rest H. unfold B, step.
+  destruct u; [change (recase1 true 103) with 71 in *|change (recase1 false 103) with 103 in *];
+    rewrite H; vm_compute; reflexivity.
+Qed.
+
+Lemma run_era : forall n ups tail p d, starts_en tail = false ->
+  run_with tail (B p d) (render_tok (TEra n ups)) = Return DateTime.
+Proof.
+  intros n ups tail p d Ht. cbn [render_tok repeat]. rewrite recase_cons. cbn [run_with].
+  rewrite step_B_g; [reflexivity|]. apply is_general_g.
+  destruct n as [|n]; cbn [repeat].
+  - rewrite recase_nil. exact Ht.
+  - rewrite recase_cons. cbn [app starts_en]. rewrite lower_recase1. reflexivity.
+Qed.
+
+(* am/pm, a/p, the day of the week: `a`s *)
+Lemma run_ampm : forall ups tail p d,
+  run_with tail (B p d) (render_tok (TAmPm ups)) = Return DateTime.
+Proof.
+  intros ups tail p d. cbn [render_tok]. unfold w_ampm. rewrite 2!recase_cons.
+  match goal with |- run_with _ _ (?c1 :: ?c2 :: ?r) = _ =>
+    change (c1 :: c2 :: r) with ([c1; c2] ++ r) end.
+  apply run_with_app_return. rewrite run_with_eq.
   destruct (hd false ups), (hd false (tl ups)); vm_compute; reflexivity.
 Qed.
 
-Lemma run_ap : forall ups p tail,
-  run (B p) (render_tok (TAP ups) ++ tail) = Return DateTime.
+Lemma run_ap : forall ups tail p d,
+  run_with tail (B p d) (render_tok (TAP ups)) = Return DateTime.
 Proof.
-  intros ups p tail. cbn [render_tok]. unfold w_ap. rewrite 2!recase_cons.
-  match goal with |- run _ ((?c1 :: ?c2 :: ?r) ++ tail) = _ =>
-    change ((c1 :: c2 :: r) ++ tail) with ([c1; c2] ++ (r ++ tail)) end.
-  apply run_app_return. rewrite run_eq.
+  intros ups tail p d. cbn [render_tok]. unfold w_ap. rewrite 2!recase_cons.
+  match goal with |- run_with _ _ (?c1 :: ?c2 :: ?r) = _ =>
+    change (c1 :: c2 :: r) with ([c1; c2] ++ r) end.
+  apply run_with_app_return. rewrite run_with_eq.
   destruct (hd false ups), (hd false (tl ups)); vm_compute; reflexivity.
 Qed.
 
-(* General: seven letters in any casing; the 'a' sets ap, the 'l' clears it again *)
-Lemma run_general : forall ups p,
-  exists p', run (B p) (render_tok (TGeneral ups)) = Continue (B p').
+Lemma run_weekday : forall long ups tail p d,
+  run_with tail (B p d) (render_tok (TWeekday long ups)) = Return DateTime.
 Proof.
-  intros ups p. cbn [render_tok]. unfold w_general. rewrite !recase_cons, recase_nil.
-  rewrite run_eq.
+  intros long ups tail p d. cbn [render_tok].
+  assert (E : exists w, recase (repeat 97 (if long then 4 else 3)%nat) ups =
+                        [recase1 (hd false ups) 97; recase1 (hd false (tl ups)) 97;
+                         recase1 (hd false (tl (tl ups))) 97] ++ w).
+  { destruct long; cbn [repeat]; rewrite 3!recase_cons; eexists; reflexivity. }
+  destruct E as [w ->]. apply run_with_app_return. rewrite run_with_eq.
+  destruct (hd false ups), (hd false (tl ups)), (hd false (tl (tl ups))); vm_compute; reflexivity.
+Qed.
+
+(* General: seven letters in any casing, passed over as a keyword *)
+Lemma run_general : forall ups tail p d,
+  exists p', run_with tail (B p d) (render_tok (TGeneral ups)) = Continue (B p' false).
+Proof.
+  intros ups tail p d. cbn [render_tok]. unfold w_general. rewrite !recase_cons, recase_nil.
+  rewrite run_with_eq.
   destruct (hd false ups), (hd false (tl ups)), (hd false (tl (tl ups))),
     (hd false (tl (tl (tl ups)))), (hd false (tl (tl (tl (tl ups))))),
     (hd false (tl (tl (tl (tl (tl ups)))))), (hd false (tl (tl (tl (tl (tl (tl ups)))))));
     vm_compute; eexists; reflexivity.
 Qed.
 
-Lemma run_exp : forall ups plus p,
-  exists p', run (B p) (render_tok (TExp ups plus)) = Continue (B p').
+(* the exponent, where it is one: after a digit placeholder *)
+Lemma run_exp : forall ups plus tail p,
+  exists p', run_with tail (B p true) (render_tok (TExp ups plus)) = Continue (B p' false).
 Proof.
-  intros ups plus p. cbn [render_tok]. rewrite recase_cons, recase_nil. cbn [app].
-  apply run_inert_list. destruct (hd false ups), plus; reflexivity.
+  intros ups plus tail p. cbn [render_tok]. rewrite recase_cons, recase_nil. cbn [app].
+  rewrite run_with_eq. destruct (hd false ups), plus; vm_compute; eexists; reflexivity.
 Qed.
 
 Lemma lit_not_significant : forall c, mem c lit_chars = true -> c <> 47 -> significant c = false.
@@ -484,76 +652,200 @@ Proof.
   unfold significant, mem. cbn [existsb]. lia.
 Qed.
 
-Lemma run_lit : forall c p, mem c lit_chars = true -> run (B p) [c] = Continue (B c).
+Lemma lit_placeholder : forall c, mem c lit_chars = true -> is_placeholder c = (c =? 46) || (c =? 44).
 Proof.
-  intros c p H. cbn [run]. destruct (N.eq_dec c 47) as [->|Hc].
-  - rewrite step_eq. vm_compute. reflexivity.
-  - rewrite (step_inert_char p c (lit_not_significant c H Hc)). reflexivity.
+  intros c H. unfold lit_chars, mem in H. cbn [existsb] in H.
+  unfold is_placeholder, mem. cbn [existsb].
+  destruct (c =? 46) eqn:E1; destruct (c =? 44) eqn:E2; cbn [orb]; lia.
 Qed.
 
-(* every non-deciding token leaves the scanner at a boundary *)
-Lemma run_other_tok : forall t p, wf_tok t = true -> tok_kind t = Other ->
-  exists p', run (B p) (render_tok t) = Continue (B p').
+Lemma run_lit : forall c tail p d, mem c lit_chars = true ->
+  run_with tail (B p d) [c] = Continue (B c ((c =? 46) || (c =? 44))).
 Proof.
-  intros t p Hwf Hk. destruct t; cbn [tok_kind] in Hk; try discriminate Hk;
-    cbn [render_tok wf_tok] in *.
-  - (* TDigit *) apply run_inert_list. destruct p0; reflexivity.
+  intros c tail p d H. cbn [run_with]. destruct (N.eq_dec c 47) as [->|Hc].
+  - rewrite step_eq. vm_compute. reflexivity.
+  - rewrite (step_inert_char p d c _ (lit_not_significant c H Hc)), (lit_placeholder c H). reflexivity.
+Qed.
+
+(* every non-deciding token, in a context it may stand in, leaves the scanner at a boundary
+   whose [digit] says whether the token ends with a placeholder *)
+Lemma run_other_tok : forall t tail p d, wf_tok t = true -> ctx_tok d t = true -> tok_kind t = Other ->
+  exists p', run_with tail (B p d) (render_tok t) = Continue (B p' (ends_num t)).
+Proof.
+  intros t tail p d Hwf Hctx Hk. destruct t; cbn [tok_kind] in Hk; try discriminate Hk;
+    cbn [render_tok wf_tok ctx_tok ends_num] in *.
+  - (* TDigit *) exists (placeholder_char p0). cbn [run_with].
+    rewrite step_inert_char by (destruct p0; reflexivity). destruct p0; reflexivity.
   - (* TLit *) exists c. apply run_lit; assumption.
   - (* TGeneral *) apply run_general.
-  - (* TExp *) apply run_exp.
-  - (* TAt *) apply run_inert_list. reflexivity.
+  - (* TExp *) subst d. apply run_exp.
+  - (* TAt *) exists 64. cbn [run_with]. rewrite step_inert_char by reflexivity. reflexivity.
   - (* TEsc *) exists c. apply run_esc_pair. reflexivity.
   - (* TPad *) exists c. apply run_esc_pair. reflexivity.
   - (* TFill *) exists c. apply run_esc_pair. reflexivity.
   - (* TQuoted *) exists 34. apply run_quoted. apply negb_true_iff. exact Hwf.
   - (* TColour *) destruct (colour_content c ups Hwf) as (c1 & rest & E & Hns & Hel).
-    exists 93. exact (run_prefix_bracket (TColour c ups) p c1 rest E Hns Hel).
+    exists 93. exact (run_prefix_bracket (TColour c ups) tail p d c1 rest E Hns Hel).
   - (* TCond *) destruct (cond_content op num Hwf) as (c1 & rest & E & Hns & Hel).
-    exists 93. exact (run_prefix_bracket (TCond op num) p c1 rest E Hns Hel).
+    exists 93. exact (run_prefix_bracket (TCond op num) tail p d c1 rest E Hns Hel).
   - (* TLocale *) destruct (locale_content cur lcid Hwf) as (c1 & rest & E & Hns & Hel).
-    exists 93. exact (run_prefix_bracket (TLocale cur lcid) p c1 rest E Hns Hel).
-  - (* TSecFrac *) apply run_inert_list.
-    change (46 :: repeat 48 (S n)) with ([46] ++ repeat 48 (S n)).
-    unfold inert_list. rewrite forallb_app. apply andb_true_iff. split; [reflexivity|].
-    apply inert_list_repeat. reflexivity.
+    exists 93. exact (run_prefix_bracket (TLocale cur lcid) tail p d c1 rest E Hns Hel).
+  - (* TSecFrac *) exists 48. cbn [run_with]. rewrite step_inert_char by reflexivity. apply run_zeros.
+Qed.
+
+(* ---- what a rendering starts with: no token starts with n, and "en" starts only an exponent
+   (never legal at this place) — so the look-ahead for General never fires on an era token ---- *)
+Lemma lit_lower : forall c, mem c lit_chars = true ->
+  (to_ascii_lowercase c =? 110) = false /\ (to_ascii_lowercase c =? 101) = false.
+Proof.
+  intros c H. unfold lit_chars, mem in H. cbn [existsb] in H. unfold to_ascii_lowercase.
+  destruct ((65 <=? c) && (c <=? 90)) eqn:E; lia.
+Qed.
+
+Lemma repeat_S_cons : forall (c : N) n, repeat c (S n) = c :: repeat c n.
+Proof. reflexivity. Qed.
+
+(* the first character of every token, lower-cased *)
+Definition tok_first (t : token) : N :=
+  match t with
+  | TDigit p => placeholder_char p
+  | TLit c => to_ascii_lowercase c
+  | TGeneral _ => 103
+  | TExp _ _ => 101
+  | TAt => 64
+  | TEsc _ => 92
+  | TPad _ => 95
+  | TFill _ => 42
+  | TQuoted _ => 34
+  | TColour _ _ | TCond _ _ | TLocale _ _ | TElapsed _ _ _ => 91
+  | TDate l _ _ => dletter_char l
+  | TAmPm _ | TAP _ | TWeekday _ _ => 97
+  | TSecFrac _ => 46
+  | TEra _ _ => 103
+  | TEraYear _ _ => 101
+  | TBuddhist _ _ => 98
+  end.
+
+Lemma render_tok_first : forall t, exists c w,
+  render_tok t = c :: w /\ to_ascii_lowercase c = tok_first t.
+Proof.
+  intros t. destruct t; cbn [render_tok tok_first].
+  - destruct p; eexists; eexists; split; reflexivity.
+  - eexists; eexists; split; reflexivity.
+  - unfold w_general. rewrite recase_cons. eexists; eexists; split; [reflexivity|apply lower_recase1].
+  - rewrite recase_cons, recase_nil. cbn [app]. eexists; eexists; split; [reflexivity|apply lower_recase1].
+  - eexists; eexists; split; reflexivity.
+  - eexists; eexists; split; reflexivity.
+  - eexists; eexists; split; reflexivity.
+  - eexists; eexists; split; reflexivity.
+  - eexists; eexists; split; reflexivity.
+  - eexists; eexists; split; reflexivity.
+  - eexists; eexists; split; reflexivity.
+  - eexists; eexists; split; reflexivity.
+  - rewrite repeat_S_cons, recase_cons. eexists; eexists; split; [reflexivity|].
+    rewrite lower_recase1. destruct l; reflexivity.
+  - unfold w_ampm. rewrite recase_cons. eexists; eexists; split; [reflexivity|apply lower_recase1].
+  - unfold w_ap. rewrite recase_cons. eexists; eexists; split; [reflexivity|apply lower_recase1].
+  - eexists; eexists; split; reflexivity.
+  - eexists; eexists; split; reflexivity.
+  - destruct long; cbn [repeat]; rewrite recase_cons; eexists; eexists; (split; [reflexivity|apply lower_recase1]).
+  - rewrite repeat_S_cons, recase_cons. eexists; eexists; split; [reflexivity|apply lower_recase1].
+  - destruct long; cbn [repeat]; rewrite recase_cons; eexists; eexists; (split; [reflexivity|apply lower_recase1]).
+  - destruct long; cbn [repeat]; rewrite recase_cons; eexists; eexists; (split; [reflexivity|apply lower_recase1]).
+Qed.
+
+Lemma tok_first_not_n : forall t, wf_tok t = true -> (tok_first t =? 110) = false.
+Proof.
+  intros t H. destruct t; cbn [tok_first]; try reflexivity.
+  - destruct p; reflexivity.
+  - cbn [wf_tok] in H. apply (lit_lower c H).
+  - destruct l; reflexivity.
+Qed.
+
+Lemma render_tok_hd_n : forall t X, wf_tok t = true -> hd_n (render_tok t ++ X) = false.
+Proof.
+  intros t X H. destruct (render_tok_first t) as (c & w & E & L). rewrite E. cbn [app hd_n].
+  rewrite L. apply tok_first_not_n. exact H.
+Qed.
+
+Lemma render_section_cons : forall t r, render_section (t :: r) = render_tok t ++ render_section r.
+Proof. reflexivity. Qed.
+
+Lemma render_section_hd_n : forall r X, forallb wf_tok r = true -> hd_n X = false ->
+  hd_n (render_section r ++ X) = false.
+Proof.
+  intros [|t r] X Hwf HX; [exact HX|]. cbn [forallb] in Hwf. apply andb_true_iff in Hwf.
+  rewrite render_section_cons, <- app_assoc. apply render_tok_hd_n. apply Hwf.
+Qed.
+
+Lemma render_section_starts_en : forall r X,
+  forallb wf_tok r = true -> ctx_ok false r = true -> hd_n X = false -> starts_en X = false ->
+  starts_en (render_section r ++ X) = false.
+Proof.
+  intros [|t r] X Hwf Hctx HX1 HX2; [exact HX2|].
+  cbn [forallb] in Hwf. apply andb_true_iff in Hwf. destruct Hwf as [Hwt Hwr].
+  cbn [ctx_ok] in Hctx. apply andb_true_iff in Hctx. destruct Hctx as [Hct Hcr].
+  rewrite render_section_cons, <- app_assoc.
+  destruct (render_tok_first t) as (c & w & E & L).
+  assert (Ne : (tok_first t =? 101) = false -> starts_en (render_tok t ++ render_section r ++ X) = false).
+  { intros F. rewrite E. cbn [app starts_en]. rewrite L, F. reflexivity. }
+  destruct t; cbn [tok_first] in Ne; try (apply Ne; reflexivity).
+  - (* TDigit *) apply Ne. destruct p; reflexivity.
+  - (* TLit *) apply Ne. cbn [wf_tok] in Hwt. apply (lit_lower c0 Hwt).
+  - (* TExp: not legal here *) cbn [ctx_tok] in Hct. discriminate Hct.
+  - (* TDate *) apply Ne. destruct l; reflexivity.
+  - (* TEraYear: "e" then a token (none starts with n) or the end; "ee" *)
+    cbn [render_tok]. destruct long; cbn [repeat]; rewrite !recase_cons, recase_nil; cbn [app starts_en hd_n].
+    + rewrite !lower_recase1. reflexivity.
+    + rewrite lower_recase1. change (to_ascii_lowercase 101 =? 101) with true. cbn [andb].
+      apply render_section_hd_n; assumption.
 Qed.
 
 (* ===================================================================================== *)
 (** * 4. Sections and whole formats *)
 
-Lemma run_section : forall s p, wf_section s = true ->
-  forall tail,
+(* what may follow a section: nothing, or the separator *)
+Definition tail_ok (tail : list N) : Prop := hd_n tail = false /\ starts_en tail = false.
+
+Lemma run_section : forall s p d tail,
+  forallb wf_tok s = true -> ctx_ok d s = true -> tail_ok tail ->
     match classify_section s with
-    | Other => exists p', run (B p) (render_section s ++ tail) = run (B p') tail
-    | k => run (B p) (render_section s ++ tail) = Return k
+    | Other => exists p' d', run (B p d) (render_section s ++ tail) = run (B p' d') tail
+    | k => run (B p d) (render_section s ++ tail) = Return k
     end.
 Proof.
-  induction s as [|t r IH]; intros p Hwf tail.
-  - cbn. exists p. reflexivity.
-  - unfold wf_section in Hwf. cbn [forallb] in Hwf. apply andb_true_iff in Hwf.
-    destruct Hwf as [Hwt Hwr].
-    change (render_section (t :: r)) with (render_tok t ++ render_section r).
-    rewrite <- app_assoc.
+  induction s as [|t r IH]; intros p d tail Hwf Hctx Htail.
+  - cbn. exists p, d. reflexivity.
+  - cbn [forallb] in Hwf. apply andb_true_iff in Hwf. destruct Hwf as [Hwt Hwr].
+    cbn [ctx_ok] in Hctx. apply andb_true_iff in Hctx. destruct Hctx as [Hct Hcr].
+    rewrite render_section_cons, <- app_assoc, run_app.
     destruct (tok_kind t) eqn:Hk.
     + (* not a deciding token *)
-      destruct (run_other_tok t p Hwt Hk) as [p' Hrun].
-      rewrite (run_app_continue _ _ _ _ Hrun).
-      cbn [classify_section]. rewrite Hk.
+      destruct (run_other_tok t (render_section r ++ tail) p d Hwt Hct Hk) as [p' Hrun].
+      rewrite Hrun. cbn [classify_section]. rewrite Hk.
       apply IH; assumption.
     + (* date/time token *)
       cbn [classify_section]. rewrite Hk.
       destruct t; cbn [tok_kind] in Hk; try discriminate Hk.
-      * apply run_date.
-      * apply run_ampm.
-      * apply run_ap.
+      * rewrite run_date. reflexivity.
+      * rewrite run_ampm. reflexivity.
+      * rewrite run_ap. reflexivity.
+      * rewrite run_weekday. reflexivity.
+      * rewrite run_era; [reflexivity|]. destruct Htail as [T1 T2].
+        apply render_section_starts_en; assumption.
+      * cbn [ctx_tok] in Hct. apply negb_true_iff in Hct. subst d. rewrite run_erayear. reflexivity.
+      * rewrite run_buddhist. reflexivity.
     + (* elapsed token *)
       cbn [classify_section]. rewrite Hk.
       destruct t; cbn [tok_kind] in Hk; try discriminate Hk.
-      apply run_app_return. apply run_elapsed.
+      rewrite run_elapsed. reflexivity.
 Qed.
 
-Lemma step_semicolon : forall p, step (B p) 59 = Return Other.
+Lemma step_semicolon : forall p d rest, step (B p d) 59 rest = Return Other.
 Proof. reflexivity. Qed.
+
+Lemma wf_section_parts : forall s, wf_section s = true -> forallb wf_tok s = true /\ ctx_ok false s = true.
+Proof. intros s H. unfold wf_section in H. apply andb_true_iff in H. exact H. Qed.
 
 (* the first section decides; whatever follows the first top-level ';' is irrelevant *)
 Theorem scanner_first_section_only : forall s rest,
@@ -561,14 +853,15 @@ Theorem scanner_first_section_only : forall s rest,
   detect (render_section s) = classify_section s /\
   detect (render_section s ++ 59 :: rest) = classify_section s.
 Proof.
-  intros s rest Hwf. unfold detect, init. change (mkSt false false 0 32 false false) with (B 32).
+  intros s rest Hwf. destruct (wf_section_parts s Hwf) as [Hw Hc].
+  unfold detect, init. change (mkSt false false 0 32 false false 0 false 0) with (B 32 false).
   split.
-  - pose proof (run_section s 32 Hwf []) as H. rewrite app_nil_r in H.
+  - pose proof (run_section s 32 false [] Hw Hc (conj eq_refl eq_refl)) as H. rewrite app_nil_r in H.
     destruct (classify_section s); [|rewrite H; reflexivity|rewrite H; reflexivity].
-    destruct H as (p' & H). rewrite H. reflexivity.
-  - pose proof (run_section s 32 Hwf (59 :: rest)) as H.
+    destruct H as (p' & d' & H). rewrite H. reflexivity.
+  - pose proof (run_section s 32 false (59 :: rest) Hw Hc (conj eq_refl eq_refl)) as H.
     destruct (classify_section s); [|rewrite H; reflexivity|rewrite H; reflexivity].
-    destruct H as (p' & H). rewrite H. cbn [run]. rewrite step_semicolon. reflexivity.
+    destruct H as (p' & d' & H). rewrite H. cbn [run]. rewrite step_semicolon. reflexivity.
 Qed.
 
 (* C10, string half: on every well-formed derivation of the number-format grammar the scanner
@@ -585,9 +878,37 @@ Proof.
     apply (scanner_first_section_only s (render (s2 :: rest)) Hs).
 Qed.
 
+(* the tokens added after audit 2 (FMT-1): a format whose only date token is one of them is a date
+   format — whatever non-deciding tokens (locale prefix, colour, literals, quoted text) surround it *)
+Definition is_locale_date (t : token) : bool :=
+  match t with
+  | TWeekday _ _ | TEra _ _ | TEraYear _ _ | TBuddhist _ _ => true
+  | _ => false
+  end.
+
+Lemma classify_section_app : forall pre t post, classify_section pre = Other ->
+  classify_section (pre ++ t :: post) = classify_section (t :: post).
+Proof.
+  induction pre as [|x pre IH]; intros t post H; [reflexivity|].
+  cbn [classify_section app] in *. destruct (tok_kind x); try discriminate H. apply IH. exact H.
+Qed.
+
+Theorem locale_date_tokens_decide : forall pre t post rest,
+  wf_section (pre ++ t :: post) = true -> classify_section pre = Other -> is_locale_date t = true ->
+  detect (render_section (pre ++ t :: post)) = DateTime /\
+  detect (render_section (pre ++ t :: post) ++ 59 :: rest) = DateTime.
+Proof.
+  intros pre t post rest Hwf Hpre Ht.
+  assert (C : classify_section (pre ++ t :: post) = DateTime).
+  { rewrite classify_section_app by exact Hpre. destruct t; try discriminate Ht; reflexivity. }
+  destruct (scanner_first_section_only (pre ++ t :: post) rest Hwf) as [H1 H2].
+  rewrite H1, H2, C. split; reflexivity.
+Qed.
+
 (* ===================================================================================== *)
 (** * 5. The derivations on which the scanner used to deviate (fixed by ac433ce, c5a918f,
-       a61713f) now satisfy the specification *)
+       a61713f, and — audit 2, FMT-1 — by "date formats made only of weekday / era /
+       Buddhist-year tokens") now satisfy the specification *)
 
 Definition former_witnesses : list ast :=
   [ [[TQuoted [119; 107; 95]; TDate LD 1 []]];            (* DQ wk_ DQ dd *)
@@ -595,13 +916,33 @@ Definition former_witnesses : list ast :=
     [[TDigit PZero; TFill 100]];                           (* 0*d *)
     [[TFill 34; TDate LD 1 []]]; [[TFill 59; TDate LD 1 []]]; [[TFill 92; TDate LD 0 []]];
     [[TGeneral [true]; TLit 47]];                          (* General/ *)
-    [[TGeneral [true]; TLit 32; TDate LY 1 []]] ].         (* General yy *)
+    [[TGeneral [true]; TLit 32; TDate LY 1 []]];           (* General yy *)
+    [[TWeekday false []]];                                 (* aaa *)
+    [[TLocale [] [52; 49; 49]; TWeekday true []]];         (* [$-411]aaaa *)
+    [[TEra 2 []; TEraYear false []; TQuoted [24180]]];     (* ggge"年" *)
+    [[TEraYear false []]];                                 (* e *)
+    [[TLocale [] [68; 48; 55; 48; 52; 49; 69]; TBuddhist true []]];   (* [$-D07041E]bbbb *)
+    [[TDigit PZero; TLit 46; TDigit PZero; TDigit PZero; TExp [true] true; TDigit PZero; TDigit PZero]];  (* 0.00E+00 *)
+    [[TColour CRed [true]; TGeneral [true]]];              (* [Red]General *)
+    [[TEra 0 []; TEraYear false []; TLit 46; TDate LM 0 []; TLit 46; TDate LD 0 []]] ].   (* ge.m.d *)
 
 Lemma former_witnesses_agree :
   forallb wf former_witnesses = true /\
   map (fun a => detect (render a)) former_witnesses = map classify former_witnesses /\
   map classify former_witnesses =
-    [DateTime; DateTime; Other; DateTime; DateTime; DateTime; Other; DateTime].
+    [DateTime; DateTime; Other; DateTime; DateTime; DateTime; Other; DateTime;
+     DateTime; DateTime; DateTime; DateTime; DateTime; Other; Other; DateTime].
+Proof. vm_compute. repeat split. Qed.
+
+(* the context conditions are needed: "e+" is an exponent after a placeholder and the year of the
+   era followed by a plus sign elsewhere — the two derivations render to the same characters *)
+Lemma exponent_context_needed :
+  render [[TDigit PZero; TExp [] true]] = render [[TDigit PZero; TEraYear false []; TLit 43]] /\
+  wf [[TDigit PZero; TExp [] true]] = true /\ wf [[TDigit PZero; TEraYear false []; TLit 43]] = false /\
+  render [[TExp [] true]] = render [[TEraYear false []; TLit 43]] /\
+  wf [[TExp [] true]] = false /\ wf [[TEraYear false []; TLit 43]] = true /\
+  detect (render [[TDigit PZero; TExp [] true]]) = Other /\
+  detect (render [[TEraYear false []; TLit 43]]) = DateTime.
 Proof. vm_compute. repeat split. Qed.
 
 (* ===================================================================================== *)
